@@ -35,7 +35,7 @@ func init() {
 			add := func(cfg string, alpha []string, d int, probes []string) {
 				specs = append(specs, seqSpec{Cfg: cfg, Alpha: alpha, Depth: d, Checks: "db", Mode: "lsm", Probes: probes})
 			}
-			d1, d2 := 4, 3
+			d1, d2 := 4, 4
 			if c.Tier == "thorough" {
 				d1, d2 = 5, 5
 			}
